@@ -50,6 +50,10 @@ def boundary_header(rng, ver=None):
     h.extra_vlr_bytes = bytes(rng.randrange(256) for _ in range(rng.choice([0, 0, 1, 5, 100])))
     for _ in range(rng.choice([0, 0, 1, 3])):
         h.vlrs.append(lasio.rand_vlr(rng, max_payload=rng.choice([0, 10, 65535])))
+    if rng.random() < 0.25:
+        # a coordinate-system record in the header must not make the reader/writer touch the global encoding bits
+        from laspy.vlrs.known import WktCoordinateSystemVlr
+        h.vlrs.append(WktCoordinateSystemVlr('GEOGCS["WGS 84"]'))
     return h
 
 
@@ -329,6 +333,34 @@ def search(ctx, seeds):
             add("in-place rewrite changed offset_to_point_data", inp, f"{off0} -> {off1}")
         if raw[off0:off0 + len(pts) * h.point_format.size] != lasio.rec_bytes(pts):
             add("in-place rewrite moved or damaged the points", inp, "")
+    # a header READ from a file that announces an illegal (version, format) pair (reading stays lenient) must be refused by the writer
+    for ver_minor, fmt in [(1, 2), (1, 3), (2, 5), (1, 6), (3, 7), (2, 10)]:
+        good = laspy.LasHeader(version="1.4" if fmt >= 6 else "1.3" if fmt >= 4 else "1.2", point_format=fmt)
+        bio = io.BytesIO()
+        with laspy.LasWriter(bio, good, closefd=False) as w:
+            w.write_points(laspy.PackedPointRecord.zeros(2, good.point_format))
+        raw = bytearray(bio.getvalue())
+        # shrink the header to the older version's size is not needed for 1.1/1.2 (same 227 bytes); only patch those
+        if good.version.minor > 2:
+            continue
+        raw[25] = ver_minor
+        try:
+            las = laspy.read(io.BytesIO(bytes(raw)))
+        except Exception:
+            continue
+        inp = {"file_says": f"1.{ver_minor} / format {fmt}"}
+        out = io.BytesIO()
+        try:
+            las.write(out)
+            add("incompatible pair written to a file", inp, f"a header read from a file announcing 1.{ver_minor} with format {fmt} was written out ({len(out.getvalue())} bytes)")
+        except Exception as ex:
+            if common.exc_kind(ex) != "ELaspy":
+                add("incompatible pair: unexpected exception on write", inp, repr(ex))
+        try:
+            laspy.LasWriter(io.BytesIO(), las.header, closefd=False)
+            add("incompatible pair accepted by LasWriter", inp, "LasWriter(dest, header) did not raise")
+        except Exception:
+            pass
     # compat invariant on the implementation
     for s, ops in api_ops(ctx):
         tbl = {(1, 1): (0, 1), (1, 2): (0, 1, 2, 3), (1, 3): tuple(range(6)), (1, 4): tuple(range(11))}
